@@ -11,7 +11,8 @@ cleanup() { git -C /repo worktree remove --force "$wt" >/dev/null 2>&1; rm -rf "
 trap cleanup EXIT
 git -C /repo worktree add -q --detach "$wt" HEAD || exit 2
 suite() { for i in 1 2 3; do (cd "$wt" && go test -vet=off -count=1 ./... >/tmp/seedchk-suite.$$ 2>&1) && return 0; done; return 1; }
-rundemo() { (cd "$wt/$pkg" && timeout 120 go test -vet=off -count=1 -run 'Demo|demo' . >/tmp/seedchk-demo.$$ 2>&1); }
+pat=$(grep -ohE '^func (Test[A-Za-z0-9_]+)' "$seed/$demo" | sed 's/^func //' | grep -v '^TestMain$' | paste -sd'|')
+rundemo() { (cd "$wt/$pkg" && timeout 300 go test -vet=off -count=1 -run "^($pat)\$" . >/tmp/seedchk-demo.$$ 2>&1); }
 case "$demo" in
   *_test.go) cp "$seed/$demo" "$wt/$pkg/zz_seed_demo_test.go";;
   *) echo '{"error":"unsupported demo kind"}'; exit 2;;
